@@ -473,6 +473,37 @@ class _ExprCanon(ast.NodeTransformer):
                 (isinstance(f, ast.Attribute) and f.attr == "amax" and not node.args and not node.keywords and not (isinstance(f.value, ast.Name) and f.value.id in ("torch", "np", "numpy"))):
             x_ = node.args[0] if fn == "torch.amax" else f.value
             return self.visit_Call(ast.copy_location(_mcall(x_, "max"), node))
+        if fn == "torch.einsum" and node.args and isinstance(node.args[0], ast.Constant) and isinstance(node.args[0].value, str):
+            # index letters are bound names: rename them in order of first appearance (r, c, a, b, ..) so that equal contractions read the same
+            spec = node.args[0].value.replace(" ", "")
+            alphabet = "rcabdefghijklmnopqstuvwxyz"
+            seen_: Dict[str, str] = {}
+            out_ = []
+            for ch in spec:
+                if ch.isalpha():
+                    if ch not in seen_ and len(seen_) < len(alphabet):
+                        seen_[ch] = alphabet[len(seen_)]
+                    out_.append(seen_.get(ch, ch))
+                else:
+                    out_.append(ch)
+            node.args[0] = ast.copy_location(ast.Constant(value="".join(out_)), node.args[0])
+            return node
+        # (X * Y).sum(dim=-2[, keepdim=True]) / torch.sum(X * Y, dim=-2, ..): the column-wise contraction einsum("...rc,...rc->...c", X, Y)[.unsqueeze(-2)]
+        sm_ = None
+        if isinstance(f, ast.Attribute) and f.attr == "sum" and isinstance(f.value, ast.BinOp) and isinstance(f.value.op, ast.Mult):
+            sm_ = (f.value, list(node.args), node.keywords)
+        elif fn == "torch.sum" and node.args and isinstance(node.args[0], ast.BinOp) and isinstance(node.args[0].op, ast.Mult):
+            sm_ = (node.args[0], list(node.args[1:]), node.keywords)
+        if sm_ is not None:
+            kws = {k.arg: k.value for k in sm_[2]}
+            d_ = kws.get("dim", kws.get("axis", sm_[1][0] if sm_[1] else None))
+            kd_ = kws.get("keepdim", sm_[1][1] if len(sm_[1]) > 1 else None)
+            if d_ is not None and ast.unparse(d_) == "-2" and set(kws) <= {"dim", "axis", "keepdim"} and len(sm_[1]) <= 2 \
+                    and (kd_ is None or (isinstance(kd_, ast.Constant) and isinstance(kd_.value, bool))):
+                es = _tcall("einsum", ast.Constant(value="...rc,...rc->...c"), sm_[0].left, sm_[0].right)
+                if kd_ is not None and kd_.value:
+                    es = _mcall(es, "unsqueeze", ast.UnaryOp(op=ast.USub(), operand=ast.Constant(2)))
+                return ast.copy_location(es, node)
         cm_ = None
         if fn in ("torch.clamp_min", "torch.clamp_max") and len(node.args) == 2 and not node.keywords:
             cm_ = (node.args[0], node.args[1], f.attr)
